@@ -11,6 +11,7 @@
 //! The orchestrator (`bin/check`) pipes cases.txt through the Lean driver and diffs.
 
 mod common;
+mod c02;
 mod c03;
 mod c04;
 mod c05;
@@ -54,6 +55,7 @@ fn main() {
     }
     let mut ctx = Ctx::new(&suite, &out, &tier, seed);
     match suite.as_str() {
+        "c02" | "c14" => c02::run(&mut ctx),
         "c03" => c03::run(&mut ctx),
         "c04" => c04::run(&mut ctx),
         "c05" => c05::run(&mut ctx),
